@@ -18,10 +18,12 @@ from ..consteval import NotConstant
 
 LEVEL = "other"
 TECHNIQUE = "AST enumeration of all parse-error sites checked against the evaluated message table; structural funnel and handler checks"
-CLAIM = ("Every one of the ~230 parse-error sites (whether or not any input reaches it) names a code with a message "
-         "template in constants.E and supplies the template's variables, so strict mode can only raise ParseError at "
-         "an error site; errors are recorded before the strict raise through a single funnel, and no handler on the "
-         "parse path can swallow the exception. Holds for all sites, not for sampled inputs.")
+CLAIM = ('Every one of the ~230 parse-error sites (whether or not any input reaches it) names a code with a '
+         "message template in constants.E and supplies the template's variables, so strict mode can only raise "
+         'ParseError at an error site; errors are recorded before the strict raise through a single funnel, '
+         'and no handler on the parse path can swallow the exception. Holds for all sites, not for sampled '
+         "inputs. The stream's position counters are re-initialised by reset(); errors of a pass abandoned for "
+         'an encoding restart are treated alike in both modes (known finding: they are not).')
 NOT_DECIDED = ("positions inside the input, 'conforming documents record no errors', other exception types raised by "
                "unrelated defects.")
 MODULES = ["html5parser.py", "_tokenizer.py", "_inputstream.py", "constants.py",
